@@ -32,7 +32,7 @@ PLAN = {
         'note': COMMON_TRUST + 'Not decided: panics inside okkhor/regex/poriborton/emojicon, sort panic-freedom for non-total comparators, RefCell double borrow, time complexity beyond termination; the only T2 function left is include_from_dictionary (flat_map: no vstd model); search_dictionary / clean_string are proved in unit fixed_search; internal_backspace_step is proved in unit fixed_reph (std contracts for Take::fold, String::len / truncate in byte offsets are T3); SplittedString::split is proved in unit split (std contracts of str::find with a closure and char_indices are T3; the UTF-8 offset facts are proved from vstd::utf8).',
     },
     'C02': {
-        'bounded': ['phonetic_api', 'fixed_api', 'ansi'],
+        'bounded': ['phonetic_api', 'fixed_api', 'ansi'], 'kani': ['k_keycode_to_char'],
         'level': 'proof',
         'units': ['rank', 'fixed_session', 'phon', 'pmeth'],
         'technique': 'Verus postcondition sg_ok (len>=1, selection<len, auxiliary==composition) on every event function; read-out preconditions',
@@ -48,7 +48,7 @@ PLAN = {
         'note': COMMON_TRUST + 'okkhor (avro) is an uninterpreted function; SplittedString::split is proved equal to split_spec in unit split (real body: closure find, right-to-left char_indices loop with escape/colon automaton, both split_at calls on proved char boundaries); what stays assumed there are two std contracts (str::find with a closure returns the byte offset of the first accepted code point; char_indices yields (offset, code point) and is a well-behaved iterator); the UTF-8 facts (offsets of code points are char boundaries, cutting the bytes there cuts the code points there, str::len is the offset of the end) are PROVED from vstd::utf8 (encode / decode lemmas); the bounded check split stays as a cross-check of the two std contracts.',
     },
     'C04': {
-        'bounded': ['layout_values', 'layout_api', 'update_engine'], 'kani': ['k_modifiers_plane'],
+        'bounded': ['layout_values', 'layout_api', 'update_engine'], 'kani': ['k_modifiers_plane', 'k_keycode_to_char'],
         'level': 'proof',
         'units': ['layout', 'layout_get', 'fixed_pkv_off', 'fixed_session'],
         'technique': 'Verus: get_char_for_key for all u16 codes vs riti.h-generated table; plane chosen by the AltGr bit only; frame/append postconditions of get_suggestion',
@@ -80,7 +80,7 @@ PLAN = {
         'note': COMMON_TRUST + 'Sortedness rests on one axiom about std sort (stable, sorted w.r.t. the proved comparator key) + data preconditions: emoji numbers 1..9, distances <= 25; that the number recorded by the dictionary search IS the edit distance is T2 (include_from_dictionary), checked by the bounded list oracle in phonetic_api / history_independence (distance and dictionary membership recomputed).',
     },
     'C08': {
-        'bounded': ['suffix_forms'],
+        'bounded': ['suffix_forms', 'update_engine'],
         'level': 'proof',
         'units': ['phon', 'util', 'data'],
         'technique': 'Verus: full functional postcondition of add_suffix_to_suggestions (every split point x every memoised base x three joining rules) with loop invariants',
